@@ -49,4 +49,22 @@ def newRecorderExpected : String :=
   "&RuntimeRecorder{ logger: c.Logger, refreshMu: &sync.Mutex{}, mu: &sync.Mutex{}, records: Records{}, uploader: c.Uploader, errColl: c.ErrColl, metrics: c.Metrics, }"
 theorem new_recorder_src : new_recorder = newRecorderExpected := rfl
 
+/-! `mainmw.recordQueryInfo`, the only caller of `Record` (`Agd.BillStat.billOf`). -/
+
+/-- One call of `Record`: device id, client country, client ASN, start time, protocol. -/
+theorem bill_args_src : bill_args = "ctx, devID, reqCtry, reqASN, start, ri.Proto" := by decide
+theorem bill_call_count_src : bill_call_count = "1" := by decide
+/-- The id is the device's, the time is the request's start time, country and ASN are those of
+the client's location. -/
+theorem bill_dev_id_src : bill_dev_id = "dev.ID" := by decide
+theorem bill_start_src : bill_start = "reqInfo.StartTime" := by decide
+theorem bill_location_src : bill_location = "g.Country, g.ASN" := by decide
+theorem bill_prof_dev_src : bill_prof_dev = "ri.DeviceData()" := by decide
+/-- No profile ⇒ return before billing; the location is optional; the query-log switch is
+looked at after the billing call (`bill_calls`: `Record` precedes `queryLog.Write`). -/
+def billCondsExpected : String :=
+  "prof == nil | g != nil | !prof.QueryLogEnabled | blocked | prof.IPLogEnabled | err != nil"
+theorem bill_conds_src : bill_conds = billCondsExpected := rfl
+theorem bill_calls_src : bill_calls = "ri.DeviceData,billStat.Record,queryLog.Write" := by decide
+
 end Agd.Tie.C16
